@@ -2,7 +2,9 @@
 
 Exit status 0: all Gen files are current.  Exit status 3: some source construct is not in the
 supported subset (fail-closed) -- the caller treats this as a broken proof obligation.
-Usage: gen.py [--repo /repo] [--out /verif/coq/Gen]
+Usage: gen.py [--repo /repo] [--out /verif/coq/Gen] [--only IndexGen.v]
+(--only IndexGen.v writes just that file and gen_status_index.json; without it IndexGen.v is
+generated together with the other targets and reported in gen_status.json)
 """
 import argparse
 import hashlib
@@ -118,6 +120,90 @@ def preprocess(relpath, src):
     return tree
 
 
+INDEX_HEADER = '''(* GENERATED from %s by harness/translate -- do not edit.  sha256(sources)=%s
+   Methods of the index / filter classes as functions: attributes READ through `self` are
+   parameters, attributes WRITTEN are locals initialised as in __init__ and returned in a tuple
+   in front of the method's own result (see harness/translate/methods.py). *)
+From Coq Require Import ZArith List String.
+From SSJ Require Import F64 PyNum FilterUtilsGen TokenOrderingGen.
+Import ListNotations.
+Open Scope string_scope.
+Open Scope Z_scope.
+
+(* sets (PrefixFilter / SizeFilter candidates) are modelled by their insertion-ordered element
+   lists: a PDict whose values are PNone; len / in / iteration agree with a set's. *)
+Definition py_set_add (s x : pyval) : pyval := py_setitem s x PNone.
+Definition py_set_update (s it : pyval) : pyval :=
+  match s with
+  | PExc _ => s
+  | _ => match py_iter it with inr e => e | inl xs => fold_left py_set_add xs s end
+  end.
+
+'''
+
+# (new name, file, class, method, state attributes, {object parameter: (file, class, attrs, inlined methods)})
+INDEX_METHODS = [
+    ('position_index_build', 'py_stringsimjoin/index/position_index.py', 'PositionIndex', 'build',
+     ['index', 'size_cache', 'min_length', 'max_length'], {}),
+    ('position_filter_find_candidates', 'py_stringsimjoin/filter/position_filter.py', 'PositionFilter',
+     'find_candidates', [],
+     {'position_index': ('py_stringsimjoin/index/position_index.py', 'PositionIndex',
+                         ['index', 'size_cache', 'min_length', 'max_length'], ['probe'])}),
+    ('prefix_index_build', 'py_stringsimjoin/index/prefix_index.py', 'PrefixIndex', 'build', ['index'], {}),
+    ('prefix_filter_find_candidates', 'py_stringsimjoin/filter/prefix_filter.py', 'PrefixFilter',
+     'find_candidates', [],
+     {'prefix_index': ('py_stringsimjoin/index/prefix_index.py', 'PrefixIndex', ['index'], ['probe'])}),
+    ('size_index_build', 'py_stringsimjoin/index/size_index.py', 'SizeIndex', 'build',
+     ['index', 'min_length', 'max_length'], {}),
+    ('size_filter_find_candidates', 'py_stringsimjoin/filter/size_filter.py', 'SizeFilter',
+     'find_candidates', [],
+     {'size_index': ('py_stringsimjoin/index/size_index.py', 'SizeIndex',
+                     ['index', 'min_length', 'max_length'], ['probe'])}),
+    ('inverted_index_build', 'py_stringsimjoin/index/inverted_index.py', 'InvertedIndex', 'build',
+     ['index', 'size_cache'], {}),
+    ('overlap_filter_find_candidates', 'py_stringsimjoin/filter/overlap_filter.py', 'OverlapFilter',
+     'find_candidates', [],
+     {'inverted_index': ('py_stringsimjoin/index/inverted_index.py', 'InvertedIndex',
+                         ['index', 'size_cache'], ['probe'])}),
+]
+INDEX_CALLEES = [('py_stringsimjoin/filter/filter_utils.py',
+                  ['get_size_lower_bound', 'get_size_upper_bound', 'get_prefix_length',
+                   'get_overlap_threshold']),
+                 ('py_stringsimjoin/utils/token_ordering.py', ['order_using_token_ordering'])]
+
+
+def gen_index(repo):
+    """IndexGen.v: (text, info).  The callees are re-translated only to learn how their
+    parameters were abstracted (tokenizer -> tokenizer_qval); their text comes from the
+    imported Gen files."""
+    import ast
+    import methods
+    srcs = {}
+
+    def tree_of(rel):
+        if rel not in srcs:
+            srcs[rel] = open(os.path.join(repo, rel)).read()
+        return ast.parse(srcs[rel])
+    specs = {}
+    for rel, funs in INDEX_CALLEES:
+        src = open(os.path.join(repo, rel)).read()
+        srcs[rel] = src
+        py2coq.translate_functions(ast.unparse(preprocess(rel, src)), funs, specs=specs)
+    fundefs, attr_allow, info = [], {}, {}
+    for new, rel, cls, meth, state, objects in INDEX_METHODS:
+        objs = {o: (tree_of(orel), ocls, attrs, ms) for o, (orel, ocls, attrs, ms) in objects.items()}
+        fn, inf = methods.extract_method(tree_of(rel), cls, meth, new, state, objs)
+        fundefs.append(fn)
+        attr_allow[new] = {o: attrs for o, (_, _, attrs, _) in objects.items()}
+        info[new] = dict(inf, source=rel, method='%s.%s' % (cls, meth))
+    text, sigs = py2coq.translate_fundefs(fundefs, known_sigs=specs, attr_allow=attr_allow, allow_sets=True)
+    for k in sigs:
+        info[k]['signature'] = sigs[k]
+    rels = sorted(srcs)
+    sha = hashlib.sha256('\0'.join(srcs[r] for r in rels).encode()).hexdigest()
+    return INDEX_HEADER % (', '.join(rels), sha) + text, {'sources': rels, 'sha256': sha, 'functions': info}
+
+
 def comp_op_map(repo):
     """COMP_OP_MAP as a Gallina function from operator string to a py_* comparison."""
     import ast
@@ -162,10 +248,26 @@ def main():
     ap.add_argument('--repo', default='/repo')
     ap.add_argument('--out', default=os.path.join(os.path.dirname(os.path.abspath(__file__)),
                                                   '..', '..', 'coq', 'Gen'))
+    ap.add_argument('--only', default=None, help='regenerate just this Gen file (IndexGen.v)')
     args = ap.parse_args()
     os.makedirs(args.out, exist_ok=True)
     status = {}
     ok = True
+    try:
+        text, info = gen_index(args.repo)
+        changed = write_if_changed(os.path.join(args.out, 'IndexGen.v'), text)
+        status['IndexGen.v'] = dict(info, changed=changed)
+    except (py2coq.Unsupported, SyntaxError, OSError) as e:
+        ok = False
+        status['IndexGen.v'] = {'error': '%s: %s' % (type(e).__name__, e)}
+        write_if_changed(os.path.join(args.out, 'IndexGen.v'),
+                         '(* translation failed: %s *)\nTranslation_failed.\n' % str(e).replace('*)', '* )'))
+    if args.only == 'IndexGen.v':
+        with open(os.path.join(args.out, 'gen_status_index.json'), 'w') as f:
+            json.dump(status, f, indent=1, sort_keys=True)
+        print(json.dumps({k: ('error: ' + v['error']) if 'error' in v else
+                          ('changed' if v.get('changed') else 'unchanged') for k, v in status.items()}))
+        sys.exit(0 if ok else 3)
     for fname, rel, funs in TARGETS:
         path = os.path.join(args.repo, rel)
         try:
